@@ -14,7 +14,13 @@ pub fn classify(out: &Outcome) -> Option<(String, String)> {
         Outcome::Timeout => Some(("hang:parse".to_string(), "parsing did not finish within the budget".to_string())),
         Outcome::Crash { how, stderr } => {
             if stderr.contains("stack overflow") {
-                Some(("crash:stack-overflow".to_string(), format!("{} {}", how, stderr)))
+                // the signature names the recursion (see worker::resolve_overflow_site)
+                let site = stderr.split("OVERFLOW-AT ").nth(1).map(|t| t.split(" | ").next().unwrap_or(t).trim().to_string());
+                let sig = match site {
+                    Some(t) => format!("crash:stack-overflow_@{}", t),
+                    None => "crash:stack-overflow".to_string(),
+                };
+                Some((sig, format!("{} {}", how, stderr)))
             } else if let Some(i) = stderr.find("ALLOC-CAP") {
                 let tail = &stderr[i..];
                 let line = tail.split(" | ").next().unwrap_or(tail);
@@ -83,8 +89,15 @@ pub fn search(tier: &str, seed: u64, s: &mut Search) {
         run(&mut wk, s, "generated", svg.as_bytes(), 96.0);
     }
     // nesting and use-expansion bombs
-    for depth in [10usize, 500, 1000, 1023, 1024, 1025, 2000] {
+    for depth in [10usize, 500, 1000, 1023, 1024, 1025, 2000, 20000, 200000] {
         let svg = format!(r#"<svg xmlns="http://www.w3.org/2000/svg">{}<rect width="1" height="1"/>{}</svg>"#, "<g>".repeat(depth), "</g>".repeat(depth));
+        run(&mut wk, s, "nesting", svg.as_bytes(), 96.0);
+        // the same depth inside a text element, as spans / links / references, and as unknown elements
+        for (open, close) in [("<tspan>", "</tspan>"), ("<a>", "</a>"), ("<tspan><a>", "</a></tspan>")] {
+            let svg = format!(r#"<svg xmlns="http://www.w3.org/2000/svg"><text y="10">{}x{}</text></svg>"#, open.repeat(depth), close.repeat(depth));
+            run(&mut wk, s, "nesting-text", svg.as_bytes(), 96.0);
+        }
+        let svg = format!(r#"<svg xmlns="http://www.w3.org/2000/svg"><switch>{}<rect width="1" height="1"/>{}</switch></svg>"#, "<svg>".repeat(depth), "</svg>".repeat(depth));
         run(&mut wk, s, "nesting", svg.as_bytes(), 96.0);
     }
     for levels in [3usize, 6, 9] {
@@ -95,6 +108,84 @@ pub fn search(tier: &str, seed: u64, s: &mut Search) {
         }
         let svg = format!(r##"<svg xmlns="http://www.w3.org/2000/svg" xmlns:xlink="http://www.w3.org/1999/xlink"><defs>{}</defs><use xlink:href="#b{}"/></svg>"##, defs, levels);
         run(&mut wk, s, "use-bomb", svg.as_bytes(), 96.0);
+    }
+    // reference graphs in which every definition is used twice by the next one: converted once per user, a chain
+    // of n definitions costs 2^n conversions unless something bounds it
+    {
+        let hdr = r#"<svg xmlns="http://www.w3.org/2000/svg" xmlns:xlink="http://www.w3.org/1999/xlink" width="100" height="100"><defs>"#;
+        for kind in ["mask", "clipPath", "pattern", "filter", "marker", "use", "mask-user-space", "gradient-href"] {
+            for levels in [6usize, 26] {
+                let mut d = String::from(hdr);
+                let last = levels;
+                match kind {
+                    "mask" | "mask-user-space" => {
+                        let cu = if kind == "mask" { r#" maskContentUnits="objectBoundingBox""# } else { r#" maskUnits="userSpaceOnUse" width="100" height="100""# };
+                        d += &format!(r#"<mask id="m0"{cu}><rect width="1" height="1" fill="white"/></mask>"#);
+                        for i in 1..=levels {
+                            d += &format!(r##"<mask id="m{i}"{cu}><rect width="1" height="0.5" fill="white" mask="url(#m{})"/><rect y="0.5" width="1" height="0.5" fill="white" mask="url(#m{})"/></mask>"##, i - 1, i - 1);
+                        }
+                        d += &format!(r##"</defs><rect width="50" height="50" mask="url(#m{last})"/></svg>"##);
+                    }
+                    "clipPath" => {
+                        d += r#"<clipPath id="m0" clipPathUnits="objectBoundingBox"><rect width="1" height="1"/></clipPath>"#;
+                        for i in 1..=levels {
+                            d += &format!(r##"<clipPath id="m{i}" clipPathUnits="objectBoundingBox"><rect width="1" height="0.5" clip-path="url(#m{})"/><rect y="0.5" width="1" height="0.5" clip-path="url(#m{})"/></clipPath>"##, i - 1, i - 1);
+                        }
+                        d += &format!(r##"</defs><rect width="50" height="50" clip-path="url(#m{last})"/></svg>"##);
+                    }
+                    "pattern" => {
+                        d += r#"<pattern id="m0" width="1" height="1"><rect width="10" height="10"/></pattern>"#;
+                        for i in 1..=levels {
+                            d += &format!(r##"<pattern id="m{i}" width="1" height="1"><rect width="10" height="5" fill="url(#m{})"/><rect y="5" width="10" height="5" fill="url(#m{})"/></pattern>"##, i - 1, i - 1);
+                        }
+                        d += &format!(r##"</defs><rect width="50" height="50" fill="url(#m{last})"/></svg>"##);
+                    }
+                    "filter" => {
+                        d += r#"<filter id="m0"><feFlood/></filter>"#;
+                        for i in 1..=levels {
+                            d += &format!(r##"<filter id="m{i}"><feImage xlink:href="#r{i}a"/><feImage xlink:href="#r{i}b"/></filter><rect id="r{i}a" width="5" height="5" filter="url(#m{})"/><rect id="r{i}b" width="5" height="5" filter="url(#m{})"/>"##, i - 1, i - 1);
+                        }
+                        d += &format!(r##"</defs><rect width="50" height="50" filter="url(#m{last})"/></svg>"##);
+                    }
+                    "marker" => {
+                        d += r#"<marker id="m0"><rect width="1" height="1"/></marker>"#;
+                        for i in 1..=levels {
+                            d += &format!(r##"<marker id="m{i}"><path d="M 0 0 L 1 1 L 2 0" stroke="black" marker-start="url(#m{})" marker-end="url(#m{})"/></marker>"##, i - 1, i - 1);
+                        }
+                        d += &format!(r##"</defs><path d="M 0 0 L 10 10" stroke="black" marker-start="url(#m{last})"/></svg>"##);
+                    }
+                    "use" => {
+                        d += r#"<g id="m0"><rect width="1" height="1"/></g>"#;
+                        for i in 1..=levels {
+                            d += &format!(r##"<g id="m{i}"><use xlink:href="#m{}"/><use xlink:href="#m{}"/></g>"##, i - 1, i - 1);
+                        }
+                        d += &format!(r##"</defs><use xlink:href="#m{last}"/></svg>"##);
+                    }
+                    _ => {
+                        d += r#"<linearGradient id="m0"><stop offset="0" stop-color="red"/><stop offset="1"/></linearGradient>"#;
+                        for i in 1..=levels {
+                            d += &format!(r##"<linearGradient id="m{i}" xlink:href="#m{}"/>"##, i - 1);
+                        }
+                        d += &format!(r##"</defs><rect width="50" height="50" fill="url(#m{last})" stroke="url(#m{last})"/></svg>"##);
+                    }
+                }
+                let out = wk.run(&format!("parse 96 {}", hex_encode(d.as_bytes())), Duration::from_secs(6));
+                let hang_at = wk.last_hang.take();
+                let key = format!("definition graph, {} levels of {}, each used twice by the next", levels, kind);
+                s.case("definition-dag", &key, matches!(&out, Outcome::Answer(a) if a.starts_with("ok")));
+                if !matches!(out, Outcome::Answer(_)) {
+                    wk = Worker::spawn();
+                }
+                if let Some((sig, what)) = classify(&out) {
+                    // over budget (time, or memory on the way): this finding is identified by its input, the
+                    // generated graph of this kind — where the sample happens to fall (conversion, the
+                    // collect_* passes, bounding boxes) varies from run to run
+                    let over_budget = out == Outcome::Timeout || sig.starts_with("alloc:");
+                    let sig = if over_budget { format!("slow:definition-dag:{}", kind) } else { sig };
+                    s.finding(&sig, &format!("{} ({}; sampled at {})", what, key, hang_at.unwrap_or_else(|| "?".into())), &d);
+                }
+            }
+        }
     }
     // systematic: every attribute of two rich base documents × every pool value (deterministic)
     for (name, base) in [("base1", include_str!("../data/base1.svg")), ("base2", include_str!("../data/base2.svg"))] {
@@ -155,7 +246,9 @@ pub fn search(tier: &str, seed: u64, s: &mut Search) {
     // text: spans with unusable font sizes, multi-byte characters, per-character position lists
     {
         let sizes = ["0", "-3", "0em", "0%", "1e-40", "1e38", "NaN", "12"];
-        let texts = ["é", "日本", "a", "🙂x", "e\u{301}", "", " ", "abc אבג"];
+        // (with characters that the named font, or every loaded font, lacks: the fallback search must end)
+        let texts = ["é", "日本", "a", "🙂x", "e\u{301}", "", " ", "abc אבג", "a\u{0E31}b", "\u{0E01}\u{0E31}\u{0E49}", "x\u{10FFFD}y", "\u{0301}\u{0E31}", "a\u{200D}\u{1F9FF}\u{FE0F}b"];
+        let families = ["", r#" font-family="Noto Sans""#, r#" font-family="Noto Serif""#, r#" font-family="No Such Font, Noto Sans""#, r#" font-family="Source Sans Pro""#, r#" font-family="monospace""#];
         let nt = if tier == "thorough" { 600 } else { 120 } * mult;
         for _ in 0..nt {
             let spans: String = (0..1 + rng.below(4))
@@ -169,8 +262,8 @@ pub fn search(tier: &str, seed: u64, s: &mut Search) {
                 })
                 .collect();
             let doc = format!(
-                r#"<svg xmlns="http://www.w3.org/2000/svg" width="50" height="50"><text x="{}" y="20" dx="1 2" font-size="{}" letter-spacing="{}" writing-mode="{}">{spans}</text></svg>"#,
-                rng.pick(&["1", "1 2 3 4 5 6", ""]), rng.pick(&sizes), rng.pick(&["0", "1e38", "-5"]), rng.pick(&["lr", "tb"])
+                r#"<svg xmlns="http://www.w3.org/2000/svg" width="50" height="50"><text x="{}" y="20" dx="1 2" font-size="{}" letter-spacing="{}" writing-mode="{}"{}>{spans}</text></svg>"#,
+                rng.pick(&["1", "1 2 3 4 5 6", ""]), rng.pick(&sizes), rng.pick(&["0", "1e38", "-5"]), rng.pick(&["lr", "tb"]), rng.pick(&families)
             );
             run(&mut wk, s, "text-edge", doc.as_bytes(), 96.0);
         }
@@ -229,6 +322,37 @@ pub fn search(tier: &str, seed: u64, s: &mut Search) {
                 if rng.chance(1, 4) { r#" transform="rotate(30) skewX(10)""# } else { "" }
             );
             run(&mut wk, s, "huge-geometry", doc.as_bytes(), 96.0);
+        }
+    }
+    // huge placement: positions and sizes of adversarial magnitude on everything that establishes a viewport or a
+    // region (nested svg, use of svg / symbol, image, marker, pattern, mask, filter), where sums and products of
+    // two lengths are formed while converting
+    {
+        let vals = ["0", "1", "10", "1e10", "-1e10", "3e38", "-3e38", "1e-25", "1e25", "1e-40", "1e19", "16777217", "2e38"];
+        let inner_svg = "data:image/svg+xml;utf8,&lt;svg xmlns='http://www.w3.org/2000/svg' width='W' height='H'&gt;&lt;rect width='5' height='5'/&gt;&lt;/svg&gt;";
+        let np = if tier == "thorough" { 4000 } else { 500 } * mult;
+        for i in 0..np {
+            let mut v = |rng: &mut Rng| -> &'static str { if rng.chance(1, 3) { "10" } else { *rng.pick(&vals) } };
+            let (x, y, w, h) = (v(&mut rng), v(&mut rng), v(&mut rng), v(&mut rng));
+            let vb = match rng.below(3) {
+                0 => String::new(),
+                1 => r#" viewBox="0 0 10 10""#.to_string(),
+                _ => format!(r#" viewBox="{} {} {} {}" preserveAspectRatio="{}""#, v(&mut rng), v(&mut rng), v(&mut rng), v(&mut rng), rng.pick(&["none", "xMidYMid slice", "xMaxYMin meet"])),
+            };
+            let sw = v(&mut rng);
+            let body = match i % 9 {
+                0 => format!(r#"<svg x="{x}" y="{y}" width="{w}" height="{h}"{vb}><rect width="5" height="5"/></svg>"#),
+                1 => format!(r##"<defs><svg id="n" width="{w}" height="{h}"{vb}><rect width="5" height="5"/></svg></defs><use xlink:href="#n" x="{x}" y="{y}"/>"##),
+                2 => format!(r##"<defs><symbol id="n"{vb}><rect width="5" height="5"/></symbol></defs><use xlink:href="#n" x="{x}" y="{y}" width="{w}" height="{h}"/>"##),
+                3 => format!(r#"<image x="{x}" y="{y}" width="{w}" height="{h}" preserveAspectRatio="{}" xlink:href="{}"/>"#, rng.pick(&["none", "xMidYMid slice", "xMidYMid meet"]), inner_svg.replace('W', v(&mut rng)).replace('H', v(&mut rng))),
+                4 => format!(r##"<defs><marker id="m" markerWidth="{w}" markerHeight="{h}" refX="{x}" refY="{y}"{vb} markerUnits="{}"><rect width="5" height="5"/></marker></defs><path d="M 1 1 L 9 1 L 9 9" stroke="black" stroke-width="{sw}" marker-start="url(#m)" marker-mid="url(#m)"/>"##, rng.pick(&["strokeWidth", "userSpaceOnUse"])),
+                5 => format!(r##"<defs><pattern id="p" x="{x}" y="{y}" width="{w}" height="{h}"{vb} patternUnits="{}"><rect width="5" height="5"/></pattern></defs><rect width="20" height="20" fill="url(#p)" stroke="url(#p)" stroke-width="{sw}"/>"##, rng.pick(&["userSpaceOnUse", "objectBoundingBox"])),
+                6 => format!(r##"<defs><mask id="k" x="{x}" y="{y}" width="{w}" height="{h}" maskUnits="{}"><rect width="5" height="5" fill="white"/></mask></defs><rect width="20" height="20" mask="url(#k)"/>"##, rng.pick(&["userSpaceOnUse", "objectBoundingBox"])),
+                7 => format!(r##"<defs><filter id="f" x="{x}" y="{y}" width="{w}" height="{h}" filterUnits="{}"><feOffset dx="{sw}"/></filter></defs><rect width="20" height="20" filter="url(#f)"/>"##, rng.pick(&["userSpaceOnUse", "objectBoundingBox"])),
+                _ => format!(r#"<rect x="{x}" y="{y}" width="{w}" height="{h}" rx="{sw}" stroke="black" stroke-width="{}"/><ellipse cx="{x}" cy="{y}" rx="{w}" ry="{h}"/><line x1="{x}" y1="{y}" x2="{w}" y2="{h}" stroke="black"/>"#, v(&mut rng)),
+            };
+            let doc = format!(r#"<svg xmlns="http://www.w3.org/2000/svg" xmlns:xlink="http://www.w3.org/1999/xlink" width="100" height="100">{body}</svg>"#);
+            run(&mut wk, s, "huge-placement", doc.as_bytes(), 96.0);
         }
     }
     // raw bytes and truncated gzip
@@ -315,6 +439,42 @@ impl<'a> XGen<'a> {
         v
     }
 
+    /// content of a `text` element: spans, links, references, text paths (kept only directly under
+    /// `text`), other elements (skipped with their content) and character data
+    pub fn text_child(&mut self, depth: u32) -> XNode {
+        let nid = self.nid();
+        let r = self.rng.below(12);
+        if r < 3 {
+            let raw = match self.rng.below(3) {
+                0 => "<!-- c -->".to_string(),
+                1 => "  \n ".to_string(),
+                _ => "txt".to_string(),
+            };
+            return XNode { nid, kind: "t", name: String::new(), attrs: vec![], children: vec![], raw };
+        }
+        let name = match r {
+            3..=6 => "tspan",
+            7 => "a",
+            8 => "tref",
+            9 => "textPath",
+            10 => *self.rng.pick(&["rect", "g", "text", "foo"]),
+            _ => "bar",
+        };
+        let kind = if r == 11 { "o" } else { "s" };
+        let mut attrs = self.attrs(true);
+        if name == "tref" || name == "textPath" {
+            attrs.push(("x", "href".into(), format!("#{}", self.rng.pick(&ID_POOL))));
+        }
+        let mut n = XNode { nid, kind, name: name.into(), attrs, children: vec![], raw: String::new() };
+        if depth < 6 {
+            for _ in 0..self.rng.below(3) {
+                let c = self.text_child(depth + 1);
+                n.children.push(c);
+            }
+        }
+        n
+    }
+
     pub fn node(&mut self, depth: u32) -> XNode {
         let nid = self.nid();
         let r = self.rng.below(20);
@@ -357,8 +517,15 @@ impl<'a> XGen<'a> {
             }
             return n;
         }
-        let name = *self.rng.pick(&["g", "g", "g", "a", "defs", "symbol", "rect", "circle", "style", "foo", "switch", "svg", "linearGradient", "clipPath"]);
+        let name = *self.rng.pick(&["g", "g", "g", "a", "defs", "symbol", "rect", "circle", "style", "foo", "switch", "svg", "linearGradient", "clipPath", "text"]);
         let mut n = XNode { nid, kind: "s", name: name.into(), attrs: self.attrs(true), children: vec![], raw: String::new() };
+        if name == "text" {
+            for _ in 0..self.rng.below(5) {
+                let c = self.text_child(depth + 1);
+                n.children.push(c);
+            }
+            return n;
+        }
         if name == "style" {
             n.attrs = vec![("n", "type".into(), "text/x-none".into())];
         }
@@ -454,6 +621,23 @@ pub fn corr(tier: &str, seed: u64, c: &mut Corr) {
             continue;
         }
         c.emit(&format!("build {}", fl.join(" ")), &ans);
+    }
+    // span nesting inside a text element around the depth limit
+    for depth in [3usize, 1021, 1022, 1023, 1024, 1025] {
+        for leaf_text in [true, false] {
+            let mut node = XNode { nid: depth + 3, kind: "t", name: String::new(), attrs: vec![], children: vec![], raw: "x".into() };
+            for d in (0..depth).rev() {
+                let children = if d + 1 == depth && !leaf_text { vec![] } else { vec![node] };
+                node = XNode { nid: d + 3, kind: "s", name: if d % 2 == 0 { "tspan".into() } else { "a".into() }, attrs: vec![], children, raw: String::new() };
+            }
+            let text = XNode { nid: 2, kind: "s", name: "text".into(), attrs: vec![], children: vec![node], raw: String::new() };
+            let root = XNode { nid: 1, kind: "s", name: "svg".into(), attrs: vec![], children: vec![text], raw: String::new() };
+            let mut xml = String::new();
+            write_xml(&root, &mut xml, true);
+            let mut fl = vec![];
+            flat(&root, 0, &mut fl);
+            c.emit(&format!("build {}", fl.join(" ")), &dump_answer(&xml));
+        }
     }
     // nesting around the depth limit
     for depth in [5usize, 1022, 1023, 1024, 1025, 1026] {
